@@ -24,6 +24,7 @@ type Solver struct {
 	defined  map[*Term]bool
 	declared map[string]bool
 	open     bool
+	eqStyle  bool
 
 	Queries  int
 	Sat      int
@@ -74,6 +75,7 @@ func NewSolver(kind string, timeoutMs int, logPath string) (*Solver, error) {
 	}
 	s.defined = map[*Term]bool{}
 	s.declared = map[string]bool{}
+	s.eqStyle = os.Getenv("GOSYM_DEFSTYLE") == "assert"
 	return s, nil
 }
 
@@ -192,7 +194,11 @@ func (s *Solver) define(root *Term) {
 					continue
 				}
 			}
-			sb.WriteString("(define-fun t" + strconv.Itoa(t.id) + " () " + sortStr(t.w) + " ")
+			if s.eqStyle {
+				sb.WriteString("(declare-const t" + strconv.Itoa(t.id) + " " + sortStr(t.w) + ")\n(assert (= t" + strconv.Itoa(t.id) + " ")
+			} else {
+				sb.WriteString("(define-fun t" + strconv.Itoa(t.id) + " () " + sortStr(t.w) + " ")
+			}
 			switch t.op {
 			case OpExtract:
 				fmt.Fprintf(&sb, "((_ extract %d %d) %s)", t.val>>8, t.val&0xff, s.ref(t.args[0]))
@@ -217,6 +223,9 @@ func (s *Solver) define(root *Term) {
 				for _, a := range t.args {
 					sb.WriteString(" " + s.ref(a))
 				}
+				sb.WriteString(")")
+			}
+			if s.eqStyle {
 				sb.WriteString(")")
 			}
 			sb.WriteString(")\n")
